@@ -133,6 +133,8 @@ def main():
     if a.replay:
         return do_replay(prop, a.replay)
     t0 = time.time()
+    if a.tier == 'thorough' and not os.environ.get('PYVC_NO_MATRIX'):
+        os.environ['PYVC_CROSSCHECK'] = '1'      # second opinion from cvc5 on the obligations z3 proved
     from proofs import registry
     from pyvc import verify
     P = registry.PROPS[prop]
@@ -288,6 +290,17 @@ def main():
         'explanation': P.get('explanation', ''),
         'exhaustive': False,
     }
+    agreement = {'agree': 0, 'open': 0, 'disagree': 0}
+    disagreements = []
+    for oid, o in main_obl.items():
+        for k, v in (o.get('cvc5') or {}).items():
+            agreement[k] += v
+        if (o.get('cvc5') or {}).get('disagree'):
+            disagreements.append(oid)
+    if os.environ.get('PYVC_CROSSCHECK'):
+        coverage['two_solver_agreement'] = dict(agreement, note='cvc5 1.0.3 on the SMT-LIB text of the first two instances of '
+                                                'every obligation z3 proved: agree = unsat, open = no answer in 5 s, '
+                                                'disagree = sat', disagreeing=disagreements)
     if a.tier == 'thorough' and not os.environ.get('PYVC_NO_MATRIX'):
         coverage['mutant_kill_matrix'] = kill_matrix(prop)
         missed = [m['change'] for m in coverage['mutant_kill_matrix'] if m['outcome'] == 'missed']
@@ -309,6 +322,10 @@ def main():
         return 3
     if nviol:
         return 1
+    for oid in disagreements:
+        print('UNDECIDED %s: z3 proved it, cvc5 reports a counter-model (solver disagreement)' % oid)
+    if disagreements:
+        return 2
     if undecided or n_unknown:
         # a contract could not be bound to the code any more, or an obligation stayed open: neither held nor violated
         for u in undecided:
